@@ -273,6 +273,13 @@ def gen_learn(r, n_cases):
         freq = [r.randint(0, 3) for _ in evs] if i % 2 else None
         base = dict(gen.params(r), events=evs, freq=freq, policy=r.choice(['error', 'keep']), stream='forms',
                     n_jobs=r.choice([1, 2]), per_job=r.choice([1, 10]), kind='learn', group=i)
+        if i % 3 == 1:
+            # the call continues from earlier weights (weights=...): still the same result for every form
+            outs = sorted({o for _, os_ in evs for o in os_} | {''})[:3] + ['PRIOR']
+            cues = sorted({c for cs, _ in evs for c in cs})[:3] + ['PRIORCUE']
+            vals = {(o, c): '%d/%d' % (r.randint(-8, 8), r.choice([1, 2, 4])) for o in outs for c in cues}
+            base['init_lw'] = {'outcomes': outs, 'cues': cues, 'vals': [vals[(o, c)] for o in outs for c in cues]}
+            base['init_cells'] = [[o, c, v] for (o, c), v in sorted(vals.items())]
         out.append(base)
     return out
 
@@ -472,6 +479,7 @@ def run(rep, pool, driver, tier):
                   'p': [b['alpha'], b['beta1'], b['beta2'], b['lambda']]}, nontrivial=True, stream='forms')
         rep.count('form:%s/%s' % (learner, form))
         rep.count('forms_freq_column' if b['freq'] is not None else 'forms_no_freq_column')
+        rep.count('forms_continue_from_weights' if b.get('init_lw') else 'forms_from_scratch')
         d = L.compare(impl, model)
         for p in L.side_checks(impl):
             d = d or p
